@@ -104,6 +104,11 @@ def case(args):
         ph, go = 1, "go depth %d" % min(10, maxd + 1)
         fen = rnd.choice(["rnbqkbnr/pppppppp/8/8/8/8/PPPPPPPP/RNBQKBNR w KQkq - 0 1", "r1bq1rk1/pp2bppp/2n1pn2/2pp4/3P1B2/2PBPN2/PP1N1PPP/R2QK2R w KQ - 0 8",
                           "r1bqkbnr/pppp1ppp/2n5/4p3/4P3/5N2/PPPP1PPP/RNBQKB1R w KQkq - 2 3", "rnbqkb1r/pp2pppp/3p1n2/8/3NP3/2N5/PPP2PPP/R1BQKB1R b KQkq - 2 5"])
+    elif directed == "same-big":   # table sizes above 16 MB are cleared by a thread pool in chunks; the prior session searches the probe
+        # position itself (deeper), so that any entry that survives Clear Hash is hit by the probe
+        ph, go = rnd.choice([17, 20, 24, 33, 100]), "go depth %d" % min(9, maxd)
+        fen = rnd.choice(["rnbqkbnr/pppppppp/8/8/8/8/PPPPPPPP/RNBQKBNR w KQkq - 0 1", "r1bq1rk1/pp2bppp/2n1pn2/2pp4/3P1B2/2PBPN2/PP1N1PPP/R2QK2R w KQ - 0 8",
+                          "r1bqkbnr/pppp1ppp/2n5/4p3/4P3/5N2/PPPP1PPP/RNBQKB1R w KQkq - 2 3"])
     res = dict(viol=[], sample="%s | %s | Hash %d | prior=%d" % (fen, go, ph, nprior), nprior=nprior)
     a = uci.Engine("rel", NET)
     a.send("uci"); a.send("setoption name Hash value %d" % ph); a.isready()
@@ -133,6 +138,10 @@ def case(args):
             b.send(cmd); script.append(cmd)
         b.wait_for(lambda l: l.startswith("bestmove"), 0, 120)
         b.send("setoption name Contempt value 0"); script.append("setoption name Contempt value 0")
+    elif directed == "same-big":
+        for cmd in ("position fen " + fen, "go depth %d" % (min(9, maxd) + 3)):
+            b.send(cmd); script.append(cmd)
+        b.wait_for(lambda l: l.startswith("bestmove"), 0, 300)
     ok = prior_session(b, rnd, fens, nprior if not directed else rnd.randint(0, 3), script, ph)
     if not ok:
         b.close("kill")
@@ -171,8 +180,8 @@ def run(c):
     for i in range(n):
         nprior = forced[i % len(forced)] if i % 3 == 0 else rnd.randint(1, 40)
         jobs.append((c.seed * 100000 + i, fens, nprior, 9 if quick else 11))
-    for i in range(max(6, n // 5)):
-        jobs.append((c.seed * 100000 + 50000 + i, fens, 2, 9 if quick else 11, "tb8" if i % 3 == 0 else "contempt1"))
+    for i in range(max(9, n // 4)):
+        jobs.append((c.seed * 100000 + 50000 + i, fens, 2, 9 if quick else 11, ("tb8", "contempt1", "same-big")[i % 3]))
     npr = []
     seen = set()
     with concurrent.futures.ThreadPoolExecutor(max_workers=core.NCPU) as ex:
@@ -191,6 +200,6 @@ def run(c):
     c.rule = ("one case = (probe position, probe command depth 6..9 or nodes, probe hash size 1/8/16 MB set at the start of both processes, seeded prior session of 1..40 searches of all limit kinds on unrelated positions incl. "
               "<=4-men 'go infinite' until tbhits, ucinewgame, option changes reverted before Clear Hash); compared transcripts: every 'info ... score ... nodes ... pv' line "
               "(time/nps removed), final node count and the bestmove line; fresh engine run twice (determinism), probe repeated after a second Clear Hash; "
-              "prior lengths 14..18 and 30..34 forced in a third of the cases; directed cases: tablebase left resident at Hash 8 before Clear Hash with a depth-10 probe, non-zero contempt search at Hash 1 with a depth-9 probe; distinct_nontrivial = distinct (position, probe, prior length)")
+              "prior lengths 14..18 and 30..34 forced in a third of the cases; directed cases: tablebase left resident at Hash 8 before Clear Hash with a depth-10 probe, non-zero contempt search at Hash 1 with a depth-9 probe, Hash 17/20/24/33/100 (cleared in chunks by a thread pool) with the probe position itself searched deeper before Clear Hash; distinct_nontrivial = distinct (position, probe, prior length)")
     c.extra.update(prior_lengths_min=min(npr), prior_lengths_max=max(npr), cases_with_prior_15_to_17=len([x for x in npr if 15 <= x <= 17]), exhaustive=False)
     c.assumptions += ["Threads=1 in the probe; synthetic network material_1"]
